@@ -14,6 +14,7 @@ import (
 	"os"
 	"path"
 	"strings"
+	"syscall"
 )
 
 // handleCreate handles NFSPROC3_CREATE - create a file
@@ -106,8 +107,12 @@ func (h *NFSProcedureHandler) handleCreate(body io.Reader, reply *RPCReply, auth
 			err = os.ErrExist
 		default:
 			if setSize && newSize <= uint64(math.MaxInt64) {
-				err = h.server.handler.fs.Truncate(targetPath, int64(newSize))
-				h.server.handler.attrCache.Invalidate(targetPath)
+				if maxSize := h.server.handler.policy.Load().MaxFileSize; maxSize > 0 && newSize > uint64(maxSize) {
+					err = syscall.EFBIG
+				} else {
+					err = h.server.handler.fs.Truncate(targetPath, int64(newSize))
+					h.server.handler.attrCache.Invalidate(targetPath)
+				}
 			}
 			if err == nil {
 				newNode, err = h.server.handler.Lookup(targetPath)
